@@ -7,10 +7,18 @@ import types
 from .. import explore, refsem
 from ..core import Check, Space, h64
 
+import enum
+
+
+class _Color(enum.Enum):
+    RED = 1
+    BLUE = 2
+
+
 LEGAL = (str, int, float, bool, complex, bytes)
 VALUES = {
     "int": 3, "float": 2.5, "str": "s", "bool": True, "bytes": b"b", "neg": -4, "zero": 0, "empty": "",
-    "none": None, "list": [1, 2], "tuple": (1, 2), "dict": {"a": 1}, "object": object(), "set": {1},
+    "enum": _Color.BLUE, "none": None, "list": [1, 2], "tuple": (1, 2), "dict": {"a": 1}, "object": object(), "set": {1},
 }
 # templates: {N} the captured NAME as written at the use site (N, K.N, K.I.N, mod.N), {B} a bare name that is
 # BOUND inside the lambda and merely spelled like the captured global/closure name
@@ -25,6 +33,7 @@ TEMPLATES = {
     "own-param-bare-depth2": "lambda {B}: {B}.jets.Select(lambda j2: j2.tr.Select(lambda t2: (t2.q, {B})))",
     "own-param-bare-in-comp": "lambda {B}: [(j2.pt, {B}) for j2 in {B}.jets]",
     "nested-param-bare-depth2": "lambda e: e.jets.Select(lambda {B}: {B}.tr.Select(lambda t2: (t2.q, {B})))",
+    "after-multi-for": "lambda e: ([t2.q for {B} in e.jets for t2 in {B}.tr], {N})",
     "comp-iter-same-name": "lambda e: [(e.a, {B}) for {B} in {N}]",
     "nested-param": "lambda e: e.jets.Select(lambda {B}: {B}.pt)",
     "nested-param-depth2": "lambda e: e.jets.Select(lambda j: j.tr.Select(lambda {B}: ({B}.q, j.pt)))",
@@ -37,7 +46,7 @@ TEMPLATES = {
     "keyword-name": "lambda e: (e.met(1, {B}=2), 0)",
     "attribute-name": "lambda e: (e.{B}, 0)",
 }
-SOURCES = ("closure", "closure-over-global", "global", "class", "nested-class", "module")
+SOURCES = ("closure", "closure-over-global", "global", "class", "class-inherited", "nested-class", "module")
 
 _N = [0]
 
@@ -45,7 +54,7 @@ _N = [0]
 def module_for(source, template, name, value, op="Select"):
     """generated module text: a build(ds) function that calls ds.<op>(<lambda>) with the lambda inline,
     one lambda per line.  The captured name is `name`."""
-    use = {"closure": name, "closure-over-global": name, "global": name, "class": f"K.{name}", "nested-class": f"K.I.{name}",
+    use = {"closure": name, "closure-over-global": name, "global": name, "class": f"K.{name}", "class-inherited": f"K.{name}", "nested-class": f"K.I.{name}",
            "module": f"cmod.{name}"}[source]
     lam = TEMPLATES[template].format(N=use, B=name)
     head = ""
@@ -53,6 +62,8 @@ def module_for(source, template, name, value, op="Select"):
         head = f"{name} = VALUE\n"
     elif source == "class":
         head = f"class K:\n    {name} = VALUE\n"
+    elif source == "class-inherited":
+        head = f"class KBase:\n    {name} = VALUE\nclass K(KBase):\n    other = 1\n"
     elif source == "nested-class":
         head = f"class K:\n    class I:\n        {name} = VALUE\n"
     elif source == "module":
@@ -114,6 +125,8 @@ class C04(Check):
                             if name in ("j", "t") and "{B}" not in TEMPLATES[tname] and \
                                     f"lambda {name}" in TEMPLATES[tname] and source in ("closure", "closure-over-global", "global"):
                                 continue  # the template itself binds that name around the use: not a capture
+                            if tname == "after-multi-for" and source not in ("closure", "closure-over-global", "global"):
+                                continue
                             if tname == "comp-iter-same-name" and (source not in ("closure", "closure-over-global", "global") or
                                                                    vname not in ("list", "tuple", "dict", "set")):
                                 continue  # only a real collection can be iterated; it must then be refused
@@ -151,7 +164,8 @@ class C04(Check):
                 return a
 
         uses_value = "{N}" in TEMPLATES[tname]
-        if uses_value and source in ("closure", "closure-over-global", "global") and tname != "comp-iter-same-name" and \
+        if uses_value and source in ("closure", "closure-over-global", "global") and \
+                tname not in ("comp-iter-same-name", "after-multi-for") and \
                 name not in refsem.free_names(ast.parse(lam_src, mode="eval").body):
             return {"n": 0, "nt": [], "oc": ["skipped: the shape itself binds that name"], "tags": {}, "viol": []}
         transportable = isinstance(value, LEGAL)
@@ -190,6 +204,12 @@ class C04(Check):
             res["oc"].append("unfrozen")
             res["viol"].append({"kind": "name-left-unfrozen", "canon": canon,
                                 "msg": f"{sorted(free)} free in {ast.unparse(emitted)[:200]!r}"})
+            return res
+        if tname == "after-multi-for":
+            consts = [n.value for n in ast.walk(emitted) if isinstance(n, ast.Constant)]
+            if not any(type(c) is type(value) and c == value for c in consts):
+                res["viol"].append({"kind": "captured-value-not-in-emitted-lambda", "canon": canon, "msg": ast.unparse(emitted)[:200]})
+            res["oc"].append("frozen (structural check only: two for clauses are not C06's subject)")
             return res
         nok = 0
         for d in refsem.datasets(False):
